@@ -670,6 +670,8 @@ var c16Corpus = [][2]string{
 
 func runC16(cfg *config) {
 	w := newCaseWriter(cfg.out)
+	progressPath = cfg.out + ".progress"
+	clearProgress()
 	defer w.close()
 	if cfg.replay != "" {
 		var seq [][]string
